@@ -754,6 +754,19 @@ func shrinkC09(c hx.Case) []hx.Case {
 		x := cloneCase(c)
 		x["servers"] = n
 		out = append(out, x)
+		if len(n) == 0 {
+			// without servers the base path has to go as well: try every suffix of the path that starts a segment
+			p := jstr(c, "path")
+			for i := 1; i < len(p); i++ {
+				if p[i] == '/' {
+					y := cloneCase(x)
+					y["path"] = p[i:]
+					y["abs"] = true
+					y["scheme"], y["host"] = "http", "localhost"
+					out = append(out, y)
+				}
+			}
+		}
 	}
 	// shorter request path: drop one segment
 	p := jstr(c, "path")
